@@ -101,9 +101,16 @@ func (c *FnCtx) translateBlock(b *ssa.BasicBlock, entryItems []Item) {
 	loop := c.loops[b]
 	if loop != nil {
 		// havoc what the loop modifies
+		if loop.Mods["*"] {
+			for n := range arrReg {
+				c.ensureArr(n)
+			}
+			for n := range c.arrSorts {
+				st.arr[n] = c.freshConst(fmt.Sprintf("%s@L%d", n, b.Index), c.arrSorts[n])
+			}
+		}
 		for n := range loop.Mods {
-			if _, ok := c.arrSorts[n]; !ok {
-				// array not (yet) used in this function context: declare lazily when its sort is known
+			if n == "*" || !c.ensureArr(n) {
 				continue
 			}
 			st.arr[n] = c.freshConst(fmt.Sprintf("%s@L%d", n, b.Index), c.arrSorts[n])
